@@ -538,6 +538,7 @@ Inductive view :=
 | VSgX (include_mol : bool)                                   (* export only: _as_species_graph, backend *)
 | VAsBip (sp rp : option string) (int_ st : option bool)      (* absent keyword = None *)
 | VBackend (include_rule int_ st : bool)
+| VBipI (fl : bflags) (ifl : iflags)                          (* import with non-default import options *)
 | VItems (items : list (string * option string)) (default_rule : string) (parse_suffix prefer_suffix : bool).
 
 Definition pick_first (X : gset string) : string := default "" (head (elements X)).
@@ -563,6 +564,8 @@ Definition run_view (H : net) (v : view) : tok :=
   | VLine line rule ps => tres tnet_plain (add_from_str empty_net line rule ps)
   | VParse lines dr ps pf => tres tnet_plain (rxns_to_hypergraph lines dr ps pf)
   | VSgX include_mol => L [tsgraph (hypergraph_to_species_graph include_mol H)]
+  | VBipI fl ifl =>
+      let G := hypergraph_to_bipartite fl H in L [tbgraph G; tres tnet_plain (bipartite_to_hypergraph ifl G)]
   | VAsBip sp rp int_ st => L [tbgraph (as_bipartite sp rp int_ st H)]
   | VBackend include_rule int_ st =>
       if include_rule then L [tbgraph (backend_bipartite int_ st H)] else L [tsgraph (hypergraph_to_species_graph false H)]
